@@ -128,8 +128,9 @@ DEFS = [
     flat('c10_kinds', [R(c('s'), 'skip'), R(c('c'), 'continue'), R(c('r'), 'reset_continue'), R(c('t'), 'return'), R(c('k'), 'tok'),
                        R(s('tt'), 'return')], ['C10'], N=2, m=3, Nt=3),
     # a shorter candidate's saved position must not outlive the selection of a longer rule whose action continues
-    flat('c10_stale_accept', [R(c('-'), 'return'), R(s('--'), 'continue'), R(c('a'), 'return'), R(cat(cset('a', 'b'), c('x'), c('y')), 'return')],
-         ['C10', 'C03', 'C01'], N=2, m=2, Nt=3),
+    flat('c10_stale_accept', [R(c('-'), 'return'), R(s('--'), 'continue'), R(c('b'), 'return')], ['C10', 'C03', 'C01'], N=2, m=2, Nt=3),
+    flat('c10_stale_accept_tail', [R(c('-'), 'return'), R(s('--'), 'continue'), R(c('a'), 'return'), R(cat(cset('a', 'b'), c('x'), c('y')), 'return')],
+         ['C10', 'C01'], N=3, m=2, tier='thorough', Nt=3),
 ]
 
 DEFS += [
@@ -140,16 +141,17 @@ DEFS += [
         ('Init', [R(c('a'), 'switch', to='S'), R(ANY, 'continue')]),
         ('S', [R(plus(c('s')), 'continue'), R(cat(c('s'), c('t')), 'switch_return', to='Init'), R(EOF, 'return')]),
     ], ['C09'], N=3, m=4, form='termination', unwind=16),
-    # ---------------------------------------------------------------- C15: clone at any call boundary
-    multi('c15_clone', [
-        ('Init', [R(c('a'), 'switch', to='S'), R(plus(cset(rng('x', 'z'))), 'return'), R(c(' '), 'skip')]),
-        ('S', [R(c('s'), 'return'), R(EOF, 'return'), R(c('q'), 'switch_return', to='Init')]),
-    ], ['C15'], N=3, m=3, form='clone', unwind=14, attrs='#[derive(Clone)]'),
-    flat('c15_clone_rewind', [R(cat(plus(c('a')), c('b')), 'return'), R(c('a'), 'return'), R(EOF, 'return')], ['C15'], N=3, m=1, form='clone', unwind=8,
+    # ---------------------------------------------------------------- C15: the lexer under test is a clone taken at a call boundary
+    multi('c15_clone_sets', [
+        ('Init', [R(c('a'), 'switch_return', to='S'), R(plus(cset(rng('x', 'z'))), 'return')]),
+        ('S', [R(c('s'), 'return'), R(EOF, 'return'), R(c('q'), 'switch_return', to='Init'), R(c('e'), 'err')]),
+    ], ['C15'], N=3, m=1, via='clone', attrs='#[derive(Clone)]'),
+    flat('c15_clone_rewind', [R(cat(plus(c('a')), c('b')), 'return'), R(c('a'), 'return'), R(EOF, 'return')], ['C15'], N=3, m=1, via='clone',
          attrs='#[derive(Clone)]'),
-    # ---------------------------------------------------------------- C14: the four constructors
-    flat('c14_ctors', [R(plus(cset(rng('a', 'z'))), 'return'), R(cset(' ', '\n', '\t'), 'skip'), R(cat(ANY, c('!')), 'return'), R(ANY, 'return')], ['C14'],
-         N=2, m=3, form='ctor', unwind=12, width=True),
+    # ---------------------------------------------------------------- C14: the lexer is built from a &str with the same characters (real width function)
+    flat('c14_str_input', [R(plus(cset(rng('a', 'z'))), 'return'), R(cat(ANY, c('!')), 'return'), R(ANY, 'return')], ['C14'],
+         N=2, m=1, Nt=2, via='str', width=True, unwind=10),
+    flat('c14_str_input_skip', [R(cset(' ', '\n', '\t'), 'skip'), R(ANY, 'return')], ['C14'], N=2, m=2, Nt=2, via='str', width=True, unwind=12),
 ]
 
 
